@@ -1,5 +1,6 @@
 (* C08 — The library refuses to emit messages that violate HTTP/2 message rules. *)
 From H2 Require Import Base.Prelude Model.FsmTypes Gen.Tables Model.Types Model.StreamFSM Proofs.FsmReach Proofs.C0708Proofs.
+From H2 Require Import Base.PyDict Model.ConnState Model.Connection Proofs.C29Proofs.
 
 (* After ANY sequence of inputs, the stream state machine:
    - refuses SEND_HEADERS once trailers were sent, and informational headers once the final response was sent;
@@ -17,5 +18,20 @@ Theorem C08_role_gate :
   conn_transition C_CLIENT_OPEN CI_RECV_PUSH_PROMISE = Some C_CLIENT_OPEN /\ conn_transition C_SERVER_OPEN CI_RECV_PUSH_PROMISE = None.
 Proof. exact c08_role_gate. Qed.
 
+(* Only clients open streams by sending headers (fix 12650a7): on a server, send_headers for an id that is not in the
+   stream table raises exactly the lookup error (NoSuchStreamError above the watermark, StreamClosedError at or below)
+   and changes NOTHING (the state is returned unchanged: no stream object, no connection transition, nothing encoded or
+   emitted); hence a successful send_headers on a server found its stream (opened by the client, or promised). *)
+Theorem C08_a_server_cannot_open_a_stream_with_send_headers :
+  forall sid hs L es pw pd pe c, client c = false -> dget sid (c_streams c) = None ->
+    api_send_headers sid hs L es pw pd pe c = (c, unknown_stream_error c sid).
+Proof. exact server_send_headers_unknown. Qed.
+Theorem C08_a_successful_server_send_headers_found_its_stream :
+  forall sid hs L es pw pd pe c c', client c = false ->
+    api_send_headers sid hs L es pw pd pe c = (c', Ok tt) -> dmem sid (c_streams c) = true.
+Proof. exact server_send_headers_ok_known. Qed.
+
 Print Assumptions C08_send_rules_after_any_history.
 Print Assumptions C08_role_gate.
+Print Assumptions C08_a_server_cannot_open_a_stream_with_send_headers.
+Print Assumptions C08_a_successful_server_send_headers_found_its_stream.
